@@ -192,4 +192,17 @@ CHECKS = {
         assumptions=SIM_ASSUMPTIONS + ["the cache-fingerprint oracle also runs inside the checks of C01, C03, C06-C13, C15, C16 (every sync of every scenario)",
                                        "absence of unsynchronised accesses cannot be decided by schedule enumeration at lock granularity: part (c) is a race-detector pass (sampling) and is supplementary; it can only ever report real races"],
     ),
+    "C18": dict(
+        level="model_checking",
+        rule="all enabled operation sequences up to length 5 (thorough 7; 3 subscribers / 2 resources: one less) over subscribe, subscribe to an undiscovered resource, addHandler, addHandler with own resync period, removeHandlers, close (remove+close as production does), object add/update/delete, tick of a handler's own resync timer; "
+             "after every operation the real factory/wrapper is compared with the reference model: refcount, informer running iff subscribed, LIST per incarnation, watch streams open, per-handler event sequence (add-time replay, later events, silence after removal)",
+        rewrite_sync=True,
+        units=[
+            dict(pkg=INFORMER, test="TestVerifC18", shards=dict(quick=16, thorough=16), budget=dict(quick=600, thorough=3000)),
+            dict(pkg=INFORMER, test="TestVerifC18Race", race=True, shards=1, budget=dict(quick=600, thorough=1800), env=dict(GOMAXPROCS="8")),
+        ],
+        assumptions=["client-go's SharedIndexInformer is replaced by the deterministic vcache informer (list-watch mode against the sim); the per-handler resync ticker is fired by the harness (vtime import rewrite); everything else in factory.go / informer.go is the real code",
+                     "interleavings below operation granularity (inside the factory / handler-list locks) are not enumerated; the free-running race-detector pass over concurrent operations is supplementary (sampling)"],
+        traces_are_evals=True,
+    ),
 }
